@@ -91,11 +91,12 @@ def run_dist_history(case):
     out = []
     with warnings.catch_warnings():
         warnings.simplefilter("ignore")
-        calc = fd.get_distance_calculator(case["calc"], moltype="dna", **kw)
-        app = fast_slow_dist(fast_calc=case["calc"], moltype="dna") if case.get("tk", True) else None
+        mt = case.get("moltype", "dna")
+        calc = fd.get_distance_calculator(case["calc"], moltype=mt, **kw)
+        app = fast_slow_dist(fast_calc=case["calc"], moltype=mt) if case.get("tk", True) else None
         for step in case["steps"]:
             names, seqs = step["names"], step["seqs"]
-            aln = make_aligned_seqs(dict(zip(names, seqs)), moltype="dna")
+            aln = make_aligned_seqs(dict(zip(names, seqs)), moltype=mt)
             before = (list(aln.names), aln.to_dict())
             order = list(aln.names)
             o = dict(order=order)
@@ -104,7 +105,7 @@ def run_dist_history(case):
             if app is not None:
                 r = app(aln)
                 o["reused_app"] = dm_cells(r, order) if hasattr(r, "to_dict") and hasattr(r, "names") else {"error": str(r)[:300]}
-            fresh = fd.get_distance_calculator(case["calc"], moltype="dna", alignment=aln, **kw)
+            fresh = fd.get_distance_calculator(case["calc"], moltype=mt, alignment=aln, **kw)
             fresh.run(show_progress=False)
             o["fresh"] = dm_cells(fresh.get_pairwise_distances(), order)
             o["input_unchanged"] = (list(aln.names), aln.to_dict()) == before
@@ -267,6 +268,58 @@ def run_dm_history(case):
     return dict(steps=out)
 
 
+def run_tree_order(case):
+    """tree builders on a distance object whose rows are NOT in sorted name order"""
+    import numpy
+
+    from cogent3.cluster import UPGMA as up
+    from cogent3.evolve.fast_distance import DistanceMatrix
+    from cogent3.phylo import nj as njm
+    from cogent3.util.dict_array import DictArray
+
+    names, matrix, ctor = case["names"], case["matrix"], case["ctor"]
+
+    def build():
+        arr = numpy.array(matrix, dtype=float)
+        if ctor == "from_array_names":
+            return DistanceMatrix.from_array_names(arr, names)
+        if ctor == "dictarray":
+            return DictArray.from_array_names(arr, names, names)
+        if ctor == "take_dists":
+            # a larger unsorted matrix with one extra tip in front, reduced to the wanted names
+            big = numpy.zeros((len(names) + 1, len(names) + 1))
+            big[1:, 1:] = arr
+            big[0, 1:] = big[1:, 0] = 97.0
+            return DistanceMatrix.from_array_names(big, ["zz_extra"] + list(names)).take_dists(list(names))
+        raise ValueError(ctor)
+
+    out = []
+    for op in case["ops"]:
+        o = dict(op=op)
+        try:
+            obj = build()
+            o["obj_names"] = [str(x) for x in (obj.names if hasattr(obj, "names") else obj.keys())]
+            snap = obj.array.copy()
+            if op == "upgma":
+                tree = up.upgma(obj)
+            elif op == "nj":
+                tree = njm.nj(obj, show_progress=False)
+            elif op == "gnj":
+                (res,) = njm.gnj(obj, keep=1, show_progress=False)
+                tree = res[1]
+            elif op == "quick_tree":
+                tree = obj.quick_tree()
+            else:
+                raise ValueError(op)
+            o["tree"] = tree_obs(tree)
+            o["input_unchanged"] = bool(numpy.array_equal(obj.array, snap))
+        except Exception as e:  # noqa: BLE001
+            o["exc"] = exc_code(e)
+            o["msg"] = f"{type(e).__name__}: {e}"[:200]
+        out.append(o)
+    return dict(steps=out)
+
+
 def run_case(case):
     k = case["kind"]
     try:
@@ -280,6 +333,8 @@ def run_case(case):
             return run_dist_history(case)
         if k == "dm_history":
             return run_dm_history(case)
+        if k == "tree_order":
+            return run_tree_order(case)
         raise ValueError(k)
     except Exception as e:  # noqa: BLE001
         import traceback
